@@ -118,7 +118,7 @@ func VP_C11_limits() {
 	vpUnwind(700)
 	vpStepLimit(4000000)
 	intp := NewInterpreter()
-	switch vpChoose("which", 6) {
+	switch vpChoose("which", 7) {
 	case 5: // loops with empty bodies are cut by the budget
 		intp.MaxOps = 30
 		text := []string{"{ } loop", "100000 { } repeat", "0 0 1 { pop } for", "/e { } def { e } loop"}[vpChoose("emptyloop", 4)]
@@ -166,6 +166,25 @@ func VP_C11_limits() {
 		} else if sz >= 0 {
 			vpAssert("in-range-request-succeeds", err == nil)
 		}
+	case 6: // a procedure body that is still being read does not escape the operand stack limit
+		n := []int{maxOperandStackDepth - 5, maxOperandStackDepth + 5, 4 * maxOperandStackDepth}[vpChoose("bodytokens", 3)]
+		text := []byte("7 {")
+		if vpChoose("nested", 2) == 1 {
+			text = append(text, " 8 {"...)
+		}
+		for i := 0; i < n; i++ {
+			text = append(text, " 1"...)
+		}
+		if vpChoose("closed", 2) == 1 {
+			text = append(text, " } }"...)
+		}
+		err := intp.Execute(&vpReader{data: text, faultAt: -1, name: "body"})
+		vpAssert("operand-stack-bounded", len(intp.Stack) <= 4*(maxOperandStackDepth+1))
+		if n > maxOperandStackDepth {
+			pe, ok := err.(*postScriptError)
+			vpAssert("long-open-body-is-stackoverflow", ok && pe.tp == eStackoverflow)
+		}
+		vpCover("open-body")
 	default: // begin at the depth limit
 		for len(intp.DictStack) < maxDictStackDepth {
 			intp.DictStack = append(intp.DictStack, Dict{})
@@ -215,6 +234,10 @@ func VP_C11_startcheck() {
 	vpUnwind(40)
 	n := vpChoose("len", 4)
 	data := vpBytes("in", n)
+	// what follows the first bytes: nothing, or a program that fails in one of several ways
+	// (the check, once passed, is not repeated - whether or not that first run succeeds)
+	tail := []string{"", "\npop", "\n1 exit", "\n1 0 idiv", "\n/x load"}[vpChoose("tail", 5)]
+	data = append(data, tail...)
 	mode := vpChoose("mode", 2)
 	src := &vpReader{data: data, mode: mode, faultAt: -1, name: "src"}
 	intp := NewInterpreter()
